@@ -29,7 +29,7 @@ Proof. unfold sc_tau. destruct hasu; cbn [andb]; [|reflexivity].
 
 Theorem table_entry_sincos : forall (iscos hasu : bool) (al be w p zeta s : K), sq K (s - al) + sq K w <> 0 ->
   gen_sincos K V iscos hasu al be w p (if hasu then zeta else 0) s = spec_sincos K ex sn cs neg iscos hasu al be w p zeta s.
-Proof.
+Proof using ex_add ex_0 sn_quarter cs_quarter.
   intros iscos hasu al be w p zeta s Hd. unfold gen_sincos, spec_sincos. cbv zeta.
   rewrite (tau_gen hasu zeta). set (tau := sc_tau K neg hasu zeta). clearbody tau.
   assert (Hd' : fpow w 2 + fpow (s - al) 2 <> 0).
